@@ -150,7 +150,12 @@ impl Property for C15 {
                 2 => rng.range(0, outage_end.max(1)),
                 _ => rng.range(0, outage_end + 120_000),
             };
-            sc.at(t, Op::Bootstrapped { node: 0 });
+            if rng.chance(1, 5) {
+                // a caller that gives up: the dropped waiter must not disturb the others
+                sc.at(t, Op::BootstrappedX { node: 0, cancel_after_ms: *rng.pick(&[0u64, 1, 1_000, 2_500, 30_000]) });
+            } else {
+                sc.at(t, Op::Bootstrapped { node: 0 });
+            }
         }
         let period = 20_000;
         sc.at(0, Op::SampleEvery { node: 0, period_ms: period, count: (horizon / period) as u32, table: false });
@@ -256,6 +261,10 @@ impl Property for C15 {
                     ApiEv::BootCall { .. } => {
                         calls.insert(*step, *t);
                     }
+                    ApiEv::Note(n) if n == "boot_cancelled" => {
+                        calls.remove(step);
+                        v.hit("waiter_cancelled");
+                    }
                     ApiEv::BootDone { ok } => {
                         let called = calls.remove(step).unwrap_or(0);
                         resolved += 1;
@@ -316,7 +325,7 @@ impl Property for C15 {
         v
     }
     fn rule(&self) -> &'static str {
-        "one real node per run; 0..30 node contacts and 0..6 IP-literal routers (overlapping, duplicated spellings), each backed by an answering / silent / erroring / garbage / late-starting / going-silent stub or by nothing; read-only on/off; outage plan (none, from start up to 2 h, flapping, partition, mid-run) via send errors or black-holing; 0..5 bootstrapped() callers at drawn times; API sampled every 20 s. non-trivial = node had contacts or waiters and was sampled; distinct = distinct order digests"
+        "one real node per run; 0..30 node contacts and 0..6 IP-literal routers (overlapping, duplicated spellings), each backed by an answering / silent / erroring / garbage / late-starting / going-silent stub or by nothing; read-only on/off; outage plan (none, from start up to 2 h, flapping, partition, mid-run) via send errors or black-holing; 0..5 bootstrapped() callers at drawn times (1 in 5 gives up after 0 ms..30 s and drops its future); API sampled every 20 s. non-trivial = node had contacts or waiters and was sampled; distinct = distinct order digests"
     }
     fn assumptions(&self) -> Vec<&'static str> {
         vec!["routers are IP literals (DNS is not simulated)", "the 11-minute bound is applied only when a plain-node contact answers every query from some instant on and the node is reachable from then on; no message loss in this family"]
